@@ -5,12 +5,19 @@ From GTCV Require Import Num FNum Vector Opres KTypes Kernel Archive ArchiveFact
 Import ListNotations.
 
 (* ---- the codecs lose nothing: for EVERY frozen archive (any number of leaves, intermediates,
-   tags, any vectors), reading the JSON document the writer produces gives the archive back,
-   the only change being that each complex pair is a list instead of a tuple ---- *)
+   tags, any vectors), reading the JSON document the writer produces gives the archive back
+   (a complex pair is read as a tuple whatever it was) ---- *)
 Theorem C07_codec_json :
   forall (N : Num) (f : frozen N), frozen_ok N f -> json_decode N (json_encode N f) = Ok (json_image N f).
 Proof. exact json_roundtrip. Qed.
 Print Assumptions C07_codec_json.
+
+(* ... and an archive whose complex pairs are tuples -- every archive frozen in a session -- comes
+   back EXACTLY (was false while jason_to_leaf built a list: fixed finding C07-json-complex-list) *)
+Theorem C07_codec_json_exact :
+  forall (N : Num) (f : frozen N), frozen_ok N f -> tuples N f -> json_decode N (json_encode N f) = Ok f.
+Proof. exact json_roundtrip_exact. Qed.
+Print Assumptions C07_codec_json_exact.
 
 (* same for XML (document as the reader sees it after serialisation): the only changes are
    label "" -> None, complex pairs as tuples, component names of a complex recomputed from its tag *)
@@ -53,23 +60,37 @@ Theorem C07_restore_elementary :
 Proof. exact restore_elementary. Qed.
 Print Assumptions C07_restore_elementary.
 
-(* ---- the full statement is FALSE of the faithful model; three concrete witnesses, each
-   replayed on the implementation on every run (known findings) ---- *)
+(* ---- the statement that C07_json_complex_refuted used to refute: for every writing session (complex
+   pairings are tuples), every archive and every reading session, dumps_json / loads_json give exactly
+   what the pickle path gives -- the same registries and restored numbers, or the same exception.
+   With C07_restore_registries this is "every leaf attribute the reporting code reads, complex pairing
+   with its Python class included, is restored by JSON" ---- *)
+Theorem C07_json_like_pickle :
+  forall (N : Num) (cx cx' : actx N) (A : archive N) f,
+    freeze N cx A = Ok f -> frozen_ok N f -> ctx_tuples N cx ->
+    store_restore N Json cx A cx' = store_restore N Pickle cx A cx'.
+Proof. exact json_like_pickle. Qed.
+Print Assumptions C07_json_like_pickle.
 
-(* JSON: y = result(2*z.real + z.imag) of a correlated dof-5 ucomplex z, only y tagged, fresh session:
-   the leaves come back with complex = [uid, uid] (a list); Welch-Satterthwaite on any further result
-   raises AssertionError, where the original, the pickle and the XML restorations give dof 5 *)
-Theorem C07_json_complex_refuted :
-  restored_leaf Json L1 <> restored_leaf Pickle L1 /\
-  restored_ws Json = Err AssertionError /\
-  restored_ws Pickle = Ok (7%float, DFin 5%float, None) /\
-  restored_ws Xml = Ok (7%float, DFin 5%float, None).
-Proof.
-  destruct json_complex_list_witness as (A & B & C & D & E & F & G).
-  split; [rewrite A, C; intros H; inversion H|].
-  split; [exact D|]. split; [rewrite F; exact G|exact G].
-Qed.
-Print Assumptions C07_json_complex_refuted.
+(* the freezing step keeps the invariant the theorem needs *)
+Theorem C07_freeze_keeps_tuples :
+  forall (N : Num) (cx : actx N) (A : archive N) f, ctx_tuples N cx -> freeze N cx A = Ok f -> tuples N f.
+Proof. exact freeze_tuples. Qed.
+Print Assumptions C07_freeze_keeps_tuples.
+
+(* ---- the statement that C07_nan_dof_same_session_refuted used to refute: in a session that still holds
+   the archived intermediate node records, the node loop of _thaw re-attaches to every one of them and
+   leaves the registry unchanged, whatever the dof (NaN for a zero-uncertainty intermediate included) ---- *)
+Theorem C07_nodes_reattach :
+  forall (N : Num) (L : list (key * anode N)) (cx : actx N),
+    (forall k n, In (k, n) L -> assoc (cx_nodes cx) k = Some n) ->
+    (forall k n, In (k, n) L -> eqb N (an_u n) (an_u n) = true) ->
+    thaw_nodes N cx L = Ok cx.
+Proof. exact thaw_nodes_same_session. Qed.
+Print Assumptions C07_nodes_reattach.
+
+(* ---- one defect remains: the full statement is FALSE of the faithful model for XML labels (known
+   finding C07-xml-empty-label, replayed on the implementation on every run) ---- *)
 
 (* XML: label "" is restored as None in a fresh session and the reload is refused (uid in use) in
    the writing session; JSON keeps it *)
@@ -80,15 +101,6 @@ Theorem C07_xml_label_refuted :
   /\ store_restore NF Xml xctx xar xctx = Err RuntimeError.
 Proof. destruct xml_empty_label_witness as (A & B & _). split; assumption. Qed.
 Print Assumptions C07_xml_label_refuted.
-
-(* every format: an intermediate with NaN dof cannot be read back in the session that wrote it *)
-Theorem C07_nan_dof_same_session_refuted :
-  store_restore NF Pickle nctx nar nctx = Err RuntimeError
-  /\ store_restore NF Json nctx nar nctx = Err RuntimeError
-  /\ store_restore NF Xml nctx nar nctx = Err RuntimeError
-  /\ (exists r, store_restore NF Pickle nctx nar (empty_ctx NF) = Ok r).
-Proof. exact nan_dof_witness. Qed.
-Print Assumptions C07_nan_dof_same_session_refuted.
 
 (* ---- non-vacuity: the hypotheses of the theorems above are met by a non-trivial archive
    (two correlated finite-dof leaves paired as a complex, one labelled intermediate) and the
@@ -117,6 +129,25 @@ Example C07_example_restored :
             | Err _ => False
             end.
 Proof. intros []; split; reflexivity. Qed.
+
+(* the two histories of the fixed findings, now restored correctly on every path *)
+Example C07_example_json_complex :
+  restored_leaf Json L1 = Some (wleaf L1 L2) /\ restored_leaf Json L2 = Some (wleaf L2 L1)
+  /\ restored_ws Json = Ok (7%float, DFin 5%float, None)
+  /\ restored_ws Pickle = Ok (7%float, DFin 5%float, None)
+  /\ restored_ws Xml = Ok (7%float, DFin 5%float, None).
+Proof. destruct json_complex_restored as (A & B & _ & _ & E & F & G & _). repeat split; assumption. Qed.
+
+Example C07_example_ctx_tuples : ctx_tuples NF wctx.
+Proof.
+  intros k l H. unfold wctx in H. cbn [cx_leaves assoc] in H.
+  destruct (keqb k L1); [inversion H; subst; reflexivity|].
+  destruct (keqb k L2); [inversion H; subst; reflexivity|discriminate].
+Qed.
+
+Example C07_example_nan_dof_reloaded :
+  same_session_ok Pickle = true /\ same_session_ok Json = true /\ same_session_ok Xml = true.
+Proof. exact nan_dof_reloaded. Qed.
 
 Example C07_example_nodup : NoDup (map fst (f_leaves ex_frozen)) /\ NoDup (map fst (f_interm ex_frozen)).
 Proof.
